@@ -669,13 +669,13 @@ func checkMuxOutput(p *C14Params, md *muxModel, data []byte) *Violation {
 
 func (propC14) Describe() PropDoc {
 	return PropDoc{
-		Rule: "one run = one seeded history of Muxer calls (AddFrame with VP8/VP8L bitstreams made by the real encoders, odd/even lengths, with and without an ALPH-chunk prefix, nil or explicit options incl. out-of-range durations and offsets; SetFrameDisposeMode/SetFrameDuration with valid and invalid indices; SetCanvasSize, SetLoopCount, SetBackgroundColor, SetICCProfile/SetEXIF/SetXMP/AddChunk with nil, empty, odd, even blobs) then Assemble into a simulated writer; 30 % of runs inject a writer fault at one of Assemble's Write calls. distinct = distinct (history, fault position); non-trivial = at least one frame was accepted by AddFrame.",
+		Rule: "one run = one seeded history of Muxer calls (AddFrame with VP8/VP8L bitstreams made by the real encoders, odd/even lengths, with and without an ALPH-chunk prefix, nil or explicit options incl. out-of-range durations and offsets; SetFrameDisposeMode/SetFrameDuration with valid and invalid indices; SetCanvasSize, SetLoopCount, SetBackgroundColor, SetICCProfile/SetEXIF/SetXMP/AddChunk with nil, empty, odd, even blobs) then Assemble into a simulated writer; 30 % of runs inject a writer fault at one of Assemble's Write calls. All payloads handed to the muxer are adjacent sub-slices of one caller buffer (the model keeps pristine copies); 25 % of histories assemble the same Muxer once more in the middle of the history (60 % of those into a failing or transiently failing writer) and the first output is checked against the model state at that point. distinct = distinct (history, fault position); non-trivial = at least one frame was accepted by AddFrame.",
 		Assumptions: []string{
 			"whether Assemble accepts a history is the muxer's own decision; the reference model only supplies the expected content of accepted files",
 			"sampling over histories: a clean batch is evidence, not proof",
 		},
 		Real:      []string{"mux.Muxer, mux.Demuxer, internal/container parser, the codecs that produce the frame bitstreams (rewritten by simgen)"},
-		Simulated: []string{"io.Writer given to Assemble (failing/short/torn writes at every Write call)"},
+		Simulated: []string{"io.Writer given to Assemble (failing/short/torn/transient writes at every Write call)", "the caller's memory layout (payloads cut from one buffer)"},
 		Reference: []string{"a plain-struct model of the muxer state updated by the same call history", "the harness's own RIFF walker"},
 		MustReach: []string{"assembled_files_verified", "write_fault_surfaced_as_error", "assemble_rejected", "assemble_write_err_on_write"},
 	}
